@@ -1,1 +1,132 @@
-fn main() { println!("vtool"); }
+//! vtool — in-process view of /repo (built with the verification hook).
+//!
+//!   vtool expand   : stdin JSON lines {"id":N,"src":"<item>"} -> stdout JSON lines with
+//!                    (a) the oracle-record serialisation of the DeriveInput (what each syn parser
+//!                        educe may call returns on every attribute argument), and
+//!                    (b) the real outcome of `derive_input_handler`: ok (impl items, canonical
+//!                        headers, token strings) / err (message) / panic.
+//!   vtool extract  : the translator — walks /repo/src and prints the Generated/*.lean tables.
+mod extract;
+mod ser;
+
+use std::io::{BufRead, Write};
+use std::panic;
+
+use quote::ToTokens;
+use serde_json::{json, Value};
+
+fn canonical(ts: &proc_macro2::TokenStream) -> String {
+    ts.to_string()
+}
+
+fn summarize_items(ts: proc_macro2::TokenStream) -> Value {
+    // parse the expansion back; every top-level item should be an impl
+    let file: syn::File = match syn::parse2(ts.clone()) {
+        Ok(f) => f,
+        Err(e) => return json!({"reparse_error": e.to_string()}),
+    };
+    let mut items = vec![];
+    for it in file.items {
+        if let syn::Item::Impl(im) = it {
+            let trait_path = im.trait_.as_ref().map(|(_, p, _)| p.to_token_stream().to_string());
+            let mut params = vec![];
+            for p in im.generics.params.iter() {
+                params.push(p.to_token_stream().to_string());
+            }
+            let mut preds = vec![];
+            if let Some(w) = &im.generics.where_clause {
+                for p in w.predicates.iter() {
+                    preds.push(p.to_token_stream().to_string());
+                }
+            }
+            let mut fns = vec![];
+            for ii in im.items.iter() {
+                if let syn::ImplItem::Fn(f) = ii {
+                    fns.push(f.sig.ident.to_string());
+                }
+            }
+            items.push(json!({
+                "trait": trait_path,
+                "params": params,
+                "self_ty": im.self_ty.to_token_stream().to_string(),
+                "where": preds,
+                "fns": fns,
+                "tokens": im.to_token_stream().to_string(),
+            }));
+        } else {
+            items.push(json!({"other": it.to_token_stream().to_string()}));
+        }
+    }
+    json!(items)
+}
+
+fn expand_one(src: &str) -> Value {
+    let ast: syn::DeriveInput = match syn::parse_str(src) {
+        Ok(a) => a,
+        Err(e) => return json!({"outcome": "parse_error", "message": e.to_string()}),
+    };
+    let record = ser::derive_input(&ast);
+    let res = panic::catch_unwind(panic::AssertUnwindSafe(|| educe_inproc::derive_input_handler_verif(ast)));
+    match res {
+        Ok(Ok(ts)) => json!({"outcome": "ok", "tokens": canonical(&ts), "items": summarize_items(ts), "input": record}),
+        Ok(Err(e)) => {
+            let msgs: Vec<String> = e.into_iter().map(|x| x.to_string()).collect();
+            json!({"outcome": "err", "message": msgs.join(" | "), "input": record})
+        },
+        Err(p) => {
+            let msg = if let Some(s) = p.downcast_ref::<&str>() {
+                s.to_string()
+            } else if let Some(s) = p.downcast_ref::<String>() {
+                s.clone()
+            } else {
+                "panic".to_string()
+            };
+            json!({"outcome": "panic", "message": msg, "input": record})
+        },
+    }
+}
+
+fn main() {
+    let args: Vec<String> = std::env::args().collect();
+    let cmd = args.get(1).map(|s| s.as_str()).unwrap_or("");
+    match cmd {
+        "expand" => {
+            panic::set_hook(Box::new(|_| {}));
+            let stdin = std::io::stdin();
+            let stdout = std::io::stdout();
+            let mut out = stdout.lock();
+            for line in stdin.lock().lines() {
+                let line = line.unwrap();
+                if line.trim().is_empty() {
+                    continue;
+                }
+                let req: Value = serde_json::from_str(&line).unwrap();
+                let src = req["src"].as_str().unwrap_or("");
+                let mut v = expand_one(src);
+                v["id"] = req["id"].clone();
+                if let Some(r) = req.get("repeat").and_then(|x| x.as_u64()) {
+                    // expand the same input again in this process (C16)
+                    let mut all_same = true;
+                    let first = v["tokens"].clone();
+                    for _ in 0..r {
+                        let w = expand_one(src);
+                        if w["tokens"] != first || w["outcome"] != v["outcome"] || w["message"] != v["message"] {
+                            all_same = false;
+                        }
+                    }
+                    v["repeat_same"] = json!(all_same);
+                }
+                writeln!(out, "{}", v).unwrap();
+            }
+        },
+        "extract" => {
+            let root = args.get(2).map(|s| s.as_str()).unwrap_or("/repo");
+            let outdir = args.get(3).map(|s| s.as_str()).unwrap_or("/verif/lean/EduceModel/Generated");
+            std::process::exit(extract::run(root, outdir));
+        },
+        _ => {
+            eprintln!("usage: vtool expand | extract [repo] [outdir]");
+            std::process::exit(2);
+        },
+    }
+}
